@@ -246,13 +246,19 @@ class _InstallWrapper(IpcCommand):
             insoptions=self.insoptions_default, diroptions=self.diroptions_default
         )
 
-        # initialize file/dir creation coroutines
+        self._init_coroutines()
+
+    def _init_coroutines(self):
+        """initialize file/dir creation coroutines"""
         self.install = self._install().send
         self.install_dirs = self._install_dirs().send
         self.install_symlinks = self._install_symlinks().send
         self.install_from_dirs = self._install_from_dirs().send
 
     def parse_args(self, *args, **kwargs):
+        # helper instances serve every request of an operation; a coroutine that
+        # raised for an earlier (nonfatal) request is finished, thus start afresh
+        self._init_coroutines()
         args = super().parse_args(*args, **kwargs)
         self.parse_install_options()
         return args
